@@ -578,7 +578,7 @@ class G:
                     vat.append(Instr(self.ch(["ghosts", "ghosts_owned", "ghosts_ref"]), self.ch(["p@x: { 1 }", "p.q@0: { 1 }, y: { 2 }", "A| p@x: { 1 }"]), tag=("ghosts", None)))
                 else:
                     f = self.ch(fields)
-                    f.attrs.append(Instr("parent", self.ch([None, "x, y", "[parent(z)] x: Q", "A| x, [map(w)] y", "0, 1"]), tag=("parent", None)))
+                    f.attrs.append(Instr("parent", self.ch([None, "x, y", "[parent(z)] x: Q", "[parent(z)] x", "[parent(0)] x: Q", "[parent([parent(w)] z)] x: Q", "A| x, [map(w)] y", "0, 1"]), tag=("parent", None)))
                     f.ty = self.ch([f.ty, "(i32, u8)", "&'a Base", "[u8; 2]", "Base"])
             if not prim and shape != "unit" and self.pr("shape_change", 0.0):
                 vat = [a for a in vat if a.name != "type_hint"]
